@@ -59,10 +59,18 @@ def cases(tier):
             continue
         for part in range(4):         # the pre-state space is partitioned over worker processes
             out.append((4, di, di % len(KINDS), 2, part))
+    for use_all in (0, 1):
+        out.append(('lazy', use_all, 0, 2 if q else 3))
     return out
 
 
+LAZY = [family.P('T0', params=[family.par('p0', default=0)]), family.P('T1', params=[family.par('p1', default=1)], data='dir'),
+        family.P('T2', inputs=[family.inp('T0'), family.inp('T1')], params=[family.par('use_all', default=False)], access='lazy')]
+
+
 def make_harness(case, tier):
+    if case[0] == 'lazy':
+        return lazy_harness(case)
     n, di, ki, h = case[:4]
     part = case[4] if len(case) > 4 else None
     hist.setup(full=False)
@@ -130,6 +138,36 @@ def make_harness(case, tier):
                 prev = None
                 cur = world.build(0, registry='r0')
                 ref.build(0, registry='r0')
+    return harness
+
+
+def lazy_harness(case):
+    """a task whose run reads its second input only when asked to: the unread input must not be computed"""
+    _, use_all, _, h = case
+    hist.setup(full=False)
+    names = ['t0', 't1', 't2']
+
+    def harness(ctx):
+        cfgv = {'use_all': bool(use_all)}
+        world = hist.World(LAZY, [cfgv])
+        ref = hist.Ref(LAZY, [cfgv])
+        mask = ctx.choice('pre', 8)
+        subset = {names[j] for j in range(3) if mask >> j & 1}
+        hist.prestate(world, ref, 0, subset)
+        cur = world.build(0)
+        ref.build(0)
+        trace = [('pre', sorted(subset)), ('use_all', bool(use_all))]
+        for step in range(h):
+            j = ctx.choice(f'req{step}', 3)
+            trace.append(('req', names[j]))
+            mark = world.mark()
+            exp_runs, _, exp_val = ref.request(cur, names[j])
+            got = world.request(cur, names[j])
+            runs = [r[0] for r in world.runs_since(mark)]
+            info = {'pipeline': 'lazy sink', 'trace': list(trace)}
+            ctx.check_concrete(sorted(runs) == sorted(exp_runs), 'runs=closure', dict(info, ran=runs, expected=exp_runs))
+            ctx.check_concrete(got[0] == 'ok' and norm(got[1], None) == exp_val, 'value',
+                               dict(info, got=repr(got[1])[:200], expected=repr(exp_val)[:200]))
     return harness
 
 
